@@ -36,6 +36,14 @@ def Ev.isHttp : Ev → Bool
   | .av .. | .gcv .. | .as .. | .gs .. => true
   | _ => false
 
+/-- protocol requests as they arrive through the library interface (`Server::…` called directly: no client creation) -/
+def Ev.isLib : Ev → Bool
+  | .avLib .. | .gcv .. | .as .. | .gs .. => true
+  | _ => false
+
+/-- the request sets the linearizability theorem covers: all through HTTP, or all through the library -/
+def ReqMix (evs : List Ev) : Prop := (∀ e ∈ evs, e.isHttp = true) ∨ (∀ e ∈ evs, e.isLib = true)
+
 /-- does the request's transaction find "no such client" and go on to create it? (only the HTTP AddVersion does) -/
 def needsCreate (e : Ev) (a : AS) : Bool :=
   match e with
@@ -97,6 +105,18 @@ def sameResp (o o' : Out) : Prop := respond o = respond o'
     left by a concurrent AddVersion's creation transaction is answered 200 (declined) instead of 404 -/
 def sameRespF3 (e : Ev) (o o' : Out) : Prop :=
   sameResp o o' ∨ ((match e with | .as .. => True | _ => False) ∧ o = .asDone false ∧ o' = .noSuchClient)
+
+def Ev.isAv : Ev → Bool | .av .. => true | _ => false
+
+/-- exact agreement, or – only if some request of the set is an HTTP AddVersion (the one request made of several
+    transactions) – agreement as seen by an HTTP client, modulo F3 -/
+def RespRel (evs : List Ev) (e : Ev) (o o' : Out) : Prop :=
+  o = o' ∨ ((∃ e' ∈ evs, e'.isAv = true) ∧ sameRespF3 e o o')
+
+theorem RespRel.weaken {evs : List Ev} {e : Ev} {o o' : Out} (h : RespRel evs e o o') : sameRespF3 e o o' := by
+  rcases h with rfl | ⟨_, h⟩
+  · exact .inl rfl
+  · exact h
 
 def Phase.out? : Phase → Option Out | .answered o | .finished o => some o | _ => none
 
